@@ -24,10 +24,25 @@ for name in sorted(os.listdir(V)):
                     if l.startswith('##'): head+=' '+l.lstrip('# ')
                 break
         change=clean(re.sub(r'^##+ Mutant \d+\s*(--|—|-|:)?\s*','',head))
-        change=re.sub(r'\(?`?mutant\d+\.diff`?[^)]*\)?','',change).strip(' -—:,()')
+        change=re.sub(r'\(`?mutant\d+\.diff`?(, *`?demo\d+\.rs`?)?\)','',change)
+        change=re.sub(r'`?mutant\d+\.diff`?(, *`?demo\d+\.rs`?)?','',change).strip(' -—:,()*')
+        if len(change)<15 or change.lower() in ('change','what changed'):
+            body=[l.strip(' *#') for l in sec.split('\n')[1:] if l.strip(' *#') and not l.strip().startswith('```')]
+            body=[l for l in body if l.lower() not in ('change','what changed') and not l.lower().startswith(('site','file','sites'))]
+            change=clean(' '.join(body[:2]))
         nm=re.search(r'(needed[^\n]*manifest[^\n]*|What is needed[^\n]*|Trigger[^\n]*)\n?((?:.|\n){0,700})',sec,re.I)
         need=clean((nm.group(0) if nm else '')[:520])
         need=re.sub(r'^(#+\s*)?(\*\*)?(What is needed( for it)? to manifest|Needed to manifest|What is needed)(\*\*)?[:.]?\s*(\(all of( it)?\))?:?','',need,flags=re.I).strip(' :*')
+        OVERRIDE={
+          "C04-9":"query-carried X-Amz-Date no longer percent-decoded (\"it has no escapes to undo\") (src/canonical.rs, get_auth_parameters_from_query_parameters)",
+          "C04-10":"freshness decided on the signed skew via num_nanoseconds(); beyond 2^63 ns (about 292 years) the Option is None and both rules answer 'not outside' (src/auth.rs, prevalidate)",
+          "C13-9":"with several Authorization headers the first one that starts with AWS4-HMAC-SHA256 is parsed instead of the first one (src/canonical.rs, get_auth_parameters)",
+          "C13-10":"SignatureError::IO with ErrorKind::TimedOut reports code ServiceUnavailable / status 503 (src/error.rs)",
+          "C17-9":"per-thread LRU of 16 derived signing keys keyed by 'secret/date/region/service'; the evicted key's id (with the secret) is logged at debug level (src/signing_key.rs)",
+          "C17-10":"on a signature mismatch a debug record with 'expected <signature>' is written when the provider's principal is a regional service whose region differs from the server's (src/auth.rs)",
+        }
+        if name in OVERRIDE: change=OVERRIDE[name]
+        change=re.sub(r'\)? ?Chan(ge)?$','',change).strip()
         meta={"property":name.split('-')[0],"source":"independent sub-agent given only the property text and a scratch worktree of /repo (fifth round: same brief; the notes of the eight changes already delivered for the property were in its output directory and had to be avoided; hint: an interaction between two options or entry points, a numeric or length boundary, dependence on what was validated before or concurrently, a future dropped or polled unusually, an environment nobody enables in tests, another public entry point)",
               "change":change[:400] or "(see agent-notes.md)","needs_to_manifest":need[:480] or "(see agent-notes.md)",
               "confirmed":"tools/seedvalidate.sh: applies cleanly, `cargo test --workspace --lib --no-fail-fast --offline` = 72 passed with the change, demo.rs fails with the change and passes without it (scratch worktree, removed afterwards)",
